@@ -7,6 +7,7 @@
   search : per compiled function (repository test inputs + generated programs, -O0 and -O1,
            zero-page and absolute placements): size_bytes() == length of the independent encoding
 """
+import re
 from lib import *
 import prog, gen_c
 
@@ -120,6 +121,18 @@ def run(chk):
         decl = "".join("unsigned char *const P%d = 0x%x;\n" % (k, a) for k, a in enumerate(addrs))
         body = "".join("*P%d = %d; i = *P%d; P%d[1] = i; i = P%d[X]; P%d[Y] = i; if (*P%d == 3) i++; P%d[2]++; " % ((k, k) + (k,) * 6) for k in range(len(addrs)))
         sources.append((decl + "unsigned char i;\nvoid main() { " + body + "}\n", ()))
+    # inline assembly with a declared size: written directly, inside inline functions (copied into their callers,
+    # once and twice, nested), without a size (default 3)
+    for n1, n2 in ((5, 2), (1, 4), (7, 6)):
+        t1 = "\\n\\t".join(["NOP"] * n1)
+        t2 = "\\n\\t".join(["LDA #0"] * (n2 // 2))
+        sources.append(("unsigned char i;\n"
+                        "inline void big() { asm(\"%s\", %d); }\n"
+                        "inline void mixed() { i = 1; asm(\"%s\", %d); i++; }\n"
+                        "inline void outer() { big(); asm(\"JMP somewhere\"); mixed(); }\n"
+                        "void direct() { asm(\"%s\", %d); asm(\"%s\", %d); }\n"
+                        "void main() { X = 1; big(); mixed(); if (X) { big(); } outer(); direct(); asm(\"%s\", %d); Y = 2; }\n"
+                        % (t1, n1, t2, n2, t1, n1, t2, n2, t2, n2), ()))
     # recorded findings: their exemplars are measured like every other program (signature = the finding's)
     known_src = {k["exemplar"]: k["signature"] for k in chk.known if k.get("exemplar")}
     sources += [(e, ()) for e in known_src]
@@ -131,6 +144,12 @@ def run(chk):
                 chk.count("compile_" + r["status"])
                 continue
             env, _, ports, _ = prog.layout(r["vars"], r.get("scheme", "4K"))
+            declared = {}
+            for mm in re.finditer(r'asm\(\s*"((?:[^"\\]|\\.)*)"\s*(?:,\s*(\d+)\s*)?\)', src):
+                text = mm.group(1).replace("\\n", "\n").replace("\\t", "\t")
+                size = int(mm.group(2)) if mm.group(2) else 3
+                declared[text] = size if declared.get(text, size) == size else None
+            declared = {k: v for k, v in declared.items() if v is not None}
             m.req("drop c04")
             m.req("env c04 %s" % " ".join("%s=%d" % (hx(k), v) for k, v in env.items()))
             for f in r["funcs"]:
@@ -147,6 +166,13 @@ def run(chk):
                     chk.fail("emitted-line-does-not-assemble", "function %s: line `%s` has no 6502 encoding / unknown symbol" % (unhx(f["name"]), show_line(ls[i]).strip()),
                              {"source": src, "level": level, "function": unhx(f["name"]), "line": show_line(ls[i])})
                     continue
+                # an inline-assembly line is counted at the size its asm() statement declares (default 3)
+                for l in ls:
+                    if l[0] == "N" and unhx(l[1]) in declared and l[2] != declared[unhx(l[1])]:
+                        chk.fail("inline-asm-size-lost", "function %s: the asm() text %r is counted as %d bytes, the source declares %d" % (
+                                 unhx(f["name"]), unhx(l[1])[:30], l[2], declared[unhx(l[1])]),
+                                 {"source": src, "level": level, "function": unhx(f["name"]), "counted": l[2], "declared": declared[unhx(l[1])]})
+                        break
                 total = sum(int(x) for x in lens)
                 if total != f["size"]:
                     diffs = [(show_line(l).strip(), l[3] if l[0] == "I" else l[2] if l[0] == "N" else 0, int(n)) for l, n in zip(ls, lens)
